@@ -79,6 +79,15 @@ CHECKS["C17"] = dict(
          "deviations of the from handling are attributed per level (known findings).",
     technique="TLA+ definition of xsl:number evaluated by TLC; trace validation over permuted visiting orders; TLC-checked conversion laws")
 
+CHECKS["C13"] = dict(
+    category="model_checking", design_ref="DESIGN.md §5 C13",
+    text="Strip.tla defines which whitespace-only text nodes the strip/preserve declarations select (import precedence, name-test priority, last wins) and "
+         "RemoveNodes builds the physically stripped document. Every observation a stylesheet WITH the declarations makes (25 expressions over all axes, positions, "
+         "counts, string values, from every element; xsl:copy-of of the document) is recomputed by TLC with XPathSem on the stripped document and must be equal.",
+    note="Trusted: TLC, renderer, TraceListener selection events, result-tree recorder. xml:space in source documents is outside the property and kept out of the generators; "
+         "keys and xsl:number over stripped documents are exercised only through their own checks.",
+    technique="TLA+ definition of whitespace stripping + XPath semantics on the stripped document (TLC); trace validation of observations")
+
 NOT_YET = {
 }
 
